@@ -381,3 +381,522 @@ theorem sim_step (c : Cfg) (s : St) (sp : Spec) (e : Ev) (T : Int)
     · simp only [hkk, if_false]; exact hmono k
 
 end Agd.Ratelimit
+
+namespace Agd.Ratelimit
+
+/-! ## Refinement of the epoch window-log specification (all `Period`/`Duration` values) -/
+
+/-- Simulation relation between the concrete caches and the epoch specification, for one bucket:
+a cache entry exists iff the abstract bucket has an epoch, and it carries that epoch's expiry. -/
+def ESimK (c : Cfg) (s : St) (sp : ESpec) (k : Key) : Prop :=
+  (match s.req k, (sp k).born with
+    | none, none => True
+    | some en, some b => en.expires = expiry b c.period ∧ en.val.hist = (sp k).log ∧
+        en.val.num = famCountK c k ∧ en.val.ivl = famIvlK c k
+    | _, _ => False) ∧
+  (match s.hit k, (sp k).hitBorn with
+    | none, none => True
+    | some en, some b => en.expires = expiry b c.duration ∧ en.val = (sp k).hits
+    | _, _ => False)
+
+def ETimeInv (sp : ESpec) (T : Int) : Prop :=
+  ∀ k, Desc (sp k).log ∧ ∀ x ∈ (sp k).log, 0 < x ∧ x ≤ T
+
+/-- An entry created at `b` with default lifetime `d` is expired exactly when its epoch is dead. -/
+theorem expired_expiry {α} (en : Entry α) (b d now : Int) (h : en.expires = expiry b d) :
+    en.expired now = !aliveAt (some b) d now := by
+  unfold Entry.expired aliveAt expiry at *
+  rw [h]
+  by_cases hd : d > 0
+  · have : ¬ d ≤ 0 := by omega
+    simp only [hd, this, if_true, decide_false, Bool.false_or]
+    by_cases hn : now ≤ b + d
+    · have : ¬ now > b + d := by omega
+      simp [hn, this]
+    · have : now > b + d := by omega
+      simp [hn, this]
+  · have : d ≤ 0 := by omega
+    simp [hd, this]
+
+theorem ebackoff_agrees (c : Cfg) (s : St) (sp : ESpec) (k : Key) (now : Int) (hk : ESimK c s sp k) :
+    isBackoff c s k now = (sp k).inBackoff c.count c.duration now := by
+  obtain ⟨_, hhit⟩ := hk
+  unfold isBackoff Tbl.get Bk.inBackoff
+  cases hh : s.hit k with
+  | none =>
+    cases hb : (sp k).hitBorn with
+    | none => simp [aliveAt]
+    | some b => simp [hh, hb] at hhit
+  | some en =>
+    cases hb : (sp k).hitBorn with
+    | none => simp [hh, hb] at hhit
+    | some b =>
+      simp [hh, hb] at hhit
+      obtain ⟨hex, hv⟩ := hhit
+      simp only [expired_expiry en b c.duration now hex]
+      cases aliveAt (some b) c.duration now <;> simp [hv]
+
+theorem ecurCounter_sim (c : Cfg) (s : St) (sp : ESpec) (k : Key) (now : Int) (hk : ESimK c s sp k) :
+    curCounter s k (famCountK c k) (famIvlK c k) now =
+      { num := famCountK c k, ivl := famIvlK c k, hist := (sp k).curLog c.period now } := by
+  obtain ⟨hreq, _⟩ := hk
+  unfold curCounter Bk.curLog
+  cases hr : s.req k with
+  | none =>
+    cases hb : (sp k).born with
+    | none => simp [aliveAt, Counter.new]
+    | some b => simp [hr, hb] at hreq
+  | some en =>
+    cases hb : (sp k).born with
+    | none => simp [hr, hb] at hreq
+    | some b =>
+      simp [hr, hb] at hreq
+      obtain ⟨hex, hh, hn, hi⟩ := hreq
+      simp only [expired_expiry en b c.period now hex]
+      cases aliveAt (some b) c.period now
+      · simp [Counter.new]
+      · cases hv : en.val
+        simp_all
+
+theorem ecurExpiry_sim (c : Cfg) (s : St) (sp : ESpec) (k : Key) (now : Int) (hk : ESimK c s sp k) :
+    ∃ b, (sp k).curBorn c.period now = some b ∧ curExpiry c s k now = expiry b c.period := by
+  obtain ⟨hreq, _⟩ := hk
+  unfold curExpiry Bk.curBorn
+  cases hr : s.req k with
+  | none =>
+    cases hb : (sp k).born with
+    | none => exact ⟨now, by simp [aliveAt], by simp⟩
+    | some b => simp [hr, hb] at hreq
+  | some en =>
+    cases hb : (sp k).born with
+    | none => simp [hr, hb] at hreq
+    | some b =>
+      simp [hr, hb] at hreq
+      obtain ⟨hex, _⟩ := hreq
+      simp only [expired_expiry en b c.period now hex]
+      cases aliveAt (some b) c.period now
+      · exact ⟨now, by simp, by simp⟩
+      · exact ⟨b, by simp, by simp [hex]⟩
+
+theorem ecurLog_inv (sp : ESpec) (T : Int) (k : Key) (period now : Int) (ht : ETimeInv sp T) :
+    Desc ((sp k).curLog period now) ∧ ∀ x ∈ (sp k).curLog period now, 0 < x ∧ x ≤ T := by
+  unfold Bk.curLog
+  split
+  · exact ht k
+  · exact ⟨trivial, fun x hx => by cases hx⟩
+
+/-- Counting one event in bucket `k`: verdict, new bucket contents and the other buckets. -/
+theorem ehasHit_sim (c : Cfg) (s : St) (sp : ESpec) (k : Key) (now : Int)
+    (hk : ESimK c s sp k)
+    (hab : above (famCountK c k) (famIvlK c k) ((sp k).curLog c.period now) now =
+      aboveSpec (famCountK c k) (famIvlK c k) ((sp k).curLog c.period now) now) :
+    (hasHitRateLimit c s k (famCountK c k) (famIvlK c k) now).2 =
+      ((sp k).count (famCountK c k) (famIvlK c k) c.period c.duration now).2 ∧
+    ESimK c (hasHitRateLimit c s k (famCountK c k) (famIvlK c k) now).1
+      (fun k' => if k' = k then ((sp k).count (famCountK c k) (famIvlK c k) c.period c.duration now).1
+        else sp k') k := by
+  have hcc := ecurCounter_sim c s sp k now hk
+  obtain ⟨b', hcb, hce⟩ := ecurExpiry_sim c s sp k now hk
+  obtain ⟨hreq, hhit⟩ := hk
+  refine ⟨by simp only [hasHitRateLimit, hcc, Counter.add, hab, Bk.count], ?_⟩
+  simp only [hasHitRateLimit, hcc, hce, Counter.add, hab, Bk.count, ESimK, if_true]
+  cases aboveSpec (famCountK c k) (famIvlK c k) ((sp k).curLog c.period now) now
+  · -- not above: hit table untouched
+    simp only [Bool.false_eq_true, if_false, Tbl.put_same, hcb]
+    exact ⟨⟨trivial, trivial, trivial, trivial⟩, hhit⟩
+  · simp only [if_true, incBackoff, Tbl.get]
+    cases hh : s.hit k with
+    | none =>
+      cases hb : (sp k).hitBorn with
+      | none => simp [aliveAt, hcb]
+      | some b => simp [hh, hb] at hhit
+    | some en =>
+      cases hb : (sp k).hitBorn with
+      | none => simp [hh, hb] at hhit
+      | some b =>
+        simp [hh, hb] at hhit
+        obtain ⟨hex, hv⟩ := hhit
+        simp only [expired_expiry en b c.duration now hex]
+        cases aliveAt (some b) c.duration now
+        · simp [hcb]
+        · simp [hcb, hex, hv]
+
+theorem ehasHit_frame (c : Cfg) (s : St) (k k' : Key) (n : Nat) (i now : Int) (h : ¬ k' = k) :
+    (hasHitRateLimit c s k n i now).1.req k' = s.req k' ∧
+    (hasHitRateLimit c s k n i now).1.hit k' = s.hit k' := by
+  simp only [hasHitRateLimit, incBackoff]
+  split
+  · split <;> simp [h]
+  · simp [h]
+
+theorem esim_step (c : Cfg) (s : St) (sp : ESpec) (e : Ev) (T : Int)
+    (h4 : 0 ≤ c.v4ivl) (h6 : 0 ≤ c.v6ivl)
+    (hs : ∀ k, ESimK c s sp k) (ht : ETimeInv sp T) (hpos : 0 < e.now) (hT : T ≤ e.now) :
+    (isRateLimited c s e.now e.addr e.qtype).2 = (especStep c sp e).2 ∧
+    (∀ k, ESimK c (isRateLimited c s e.now e.addr e.qtype).1 (especStep c sp e).1 k) ∧
+    ETimeInv (especStep c sp e).1 e.now := by
+  have hmono : ETimeInv sp e.now := fun k =>
+    ⟨(ht k).1, fun x hx => ⟨((ht k).2 x hx).1, Int.le_trans ((ht k).2 x hx).2 hT⟩⟩
+  have hek : subnetKey e.addr c.v4len c.v6len = evKey c e := rfl
+  have hk := hs (evKey c e)
+  have hb := ebackoff_agrees c s sp (evKey c e) e.now hk
+  have hcl := ecurLog_inv sp e.now (evKey c e) c.period e.now hmono
+  have hivl : 0 ≤ famIvlK c (evKey c e) := by unfold famIvlK; split <;> assumption
+  have hab : above (famCountK c (evKey c e)) (famIvlK c (evKey c e))
+        ((sp (evKey c e)).curLog c.period e.now) e.now =
+      aboveSpec (famCountK c (evKey c e)) (famIvlK c (evKey c e))
+        ((sp (evKey c e)).curLog c.period e.now) e.now := by
+    apply above_eq_spec _ _ _ _ hivl
+    · exact desc_cons hcl.1 (fun x hx => (hcl.2 x hx).2)
+    · exact fun x hx => (hcl.2 x hx).1
+    · exact hpos
+  have hhs := ehasHit_sim c s sp (evKey c e) e.now hk hab
+  unfold isRateLimited especStep
+  split
+  · exact ⟨rfl, hs, hmono⟩
+  split
+  · exact ⟨rfl, hs, hmono⟩
+  rw [famCount_key, famIvl_key, hek, hb]
+  by_cases hcond : (sp (evKey c e)).inBackoff c.count c.duration e.now = true
+  · simp only [hcond, if_true]
+    exact ⟨trivial, hs, hmono⟩
+  simp only [hcond, if_false, Bool.false_eq_true]
+  refine ⟨?_, ?_, ?_⟩
+  · rw [hhs.1]
+  · intro k
+    by_cases hkk : k = evKey c e
+    · subst hkk
+      exact hhs.2
+    · have hk' := hs k
+      have hf := ehasHit_frame c s (evKey c e) k (famCountK c (evKey c e)) (famIvlK c (evKey c e)) e.now hkk
+      unfold ESimK at hk' ⊢
+      simp only [hkk, if_false]
+      rw [hf.1, hf.2]
+      exact hk'
+  · intro k
+    by_cases hkk : k = evKey c e
+    · subst hkk
+      simp only [if_true]
+      have hlog : ((sp (evKey c e)).count (famCountK c (evKey c e)) (famIvlK c (evKey c e))
+          c.period c.duration e.now).1.log = e.now :: (sp (evKey c e)).curLog c.period e.now := by
+        unfold Bk.count; split <;> rfl
+      rw [hlog]
+      refine ⟨desc_cons hcl.1 (fun x hx => (hcl.2 x hx).2), ?_⟩
+      intro x hx
+      cases hx with
+      | head => exact ⟨hpos, Int.le_refl _⟩
+      | tail _ hx' => exact hcl.2 x hx'
+    · simp only [hkk, if_false]; exact hmono k
+
+/-! ## Without expiry the epoch specification is the plain window log -/
+
+/-- Relation between the epoch specification and the plain one when epochs never die. -/
+def PureK (esp : ESpec) (sp : Spec) (k : Key) : Prop :=
+  (match (esp k).born with
+    | none => (sp k).1 = []
+    | some _ => (esp k).log = (sp k).1) ∧
+  (match (esp k).hitBorn with
+    | none => (sp k).2 = 0
+    | some _ => (esp k).hits = (sp k).2 ∧ 0 < (sp k).2)
+
+theorem aliveAt_forever (b : Option Int) (d now : Int) (hd : d ≤ 0) : aliveAt b d now = b.isSome := by
+  cases b <;> simp [aliveAt, hd]
+
+theorem pure_step (c : Cfg) (esp : ESpec) (sp : Spec) (e : Ev)
+    (hp : c.period ≤ 0) (hdur : c.duration ≤ 0) (hs : ∀ k, PureK esp sp k) :
+    (especStep c esp e).2 = (specStep c sp e).2 ∧
+    ∀ k, PureK (especStep c esp e).1 (specStep c sp e).1 k := by
+  obtain ⟨hlog, hhit⟩ := hs (evKey c e)
+  have hcl : (esp (evKey c e)).curLog c.period e.now = (sp (evKey c e)).1 := by
+    unfold Bk.curLog
+    rw [aliveAt_forever _ _ _ hp]
+    cases hb : (esp (evKey c e)).born with
+    | none => simp [hb] at hlog; simp [hlog]
+    | some b => simp [hb] at hlog; simp [hlog]
+  have hcb : ∃ b, (esp (evKey c e)).curBorn c.period e.now = some b := by
+    unfold Bk.curBorn
+    rw [aliveAt_forever _ _ _ hp]
+    cases hb : (esp (evKey c e)).born with
+    | none => exact ⟨e.now, by simp⟩
+    | some b => exact ⟨b, by simp⟩
+  have hbo : (esp (evKey c e)).inBackoff c.count c.duration e.now =
+      decide (0 < (sp (evKey c e)).2 ∧ c.count ≤ (sp (evKey c e)).2) := by
+    unfold Bk.inBackoff
+    rw [aliveAt_forever _ _ _ hdur]
+    cases hb : (esp (evKey c e)).hitBorn with
+    | none => simp [hb] at hhit; simp [hhit]
+    | some b => simp [hb] at hhit; simp [hhit.1, hhit.2]
+  obtain ⟨b', hcb⟩ := hcb
+  unfold especStep specStep
+  split
+  · exact ⟨rfl, hs⟩
+  split
+  · exact ⟨rfl, hs⟩
+  rw [hbo]
+  split
+  · exact ⟨rfl, hs⟩
+  simp only [Bk.count, hcl]
+  refine ⟨trivial, ?_⟩
+  intro k
+  by_cases hkk : k = evKey c e
+  · subst hkk
+    unfold PureK
+    simp only [if_true]
+    rw [aliveAt_forever _ _ _ hdur]
+    cases aboveSpec (famCountK c (evKey c e)) (famIvlK c (evKey c e)) (sp (evKey c e)).1 e.now
+    · simp only [Bool.false_eq_true, if_false, hcb, Nat.add_zero]
+      exact ⟨trivial, hhit⟩
+    · simp only [if_true, hcb]
+      refine ⟨trivial, ?_⟩
+      cases hb : (esp (evKey c e)).hitBorn with
+      | none => simp [hb] at hhit; simp [hhit]
+      | some b => simp [hb] at hhit; simp [hhit.1]
+  · have := hs k
+    unfold PureK at this ⊢
+    simp only [hkk, if_false]
+    exact this
+
+end Agd.Ratelimit
+
+namespace Agd.Ratelimit
+
+/-! ## Quiet resets are unobservable: epoch specification vs. the reset-free one -/
+
+/-- Bucket relation between the epoch specification (`b`) and the reset-free one (`b0`): same hit
+epoch; the reset-free log is the epoch's log followed by older stamps, each more than `ivl` older
+than the epoch's creation, which is not in the future (`≤ T`). -/
+def QRel (ivl T : Int) (b b0 : Bk) : Prop :=
+  b.hits = b0.hits ∧ b.hitBorn = b0.hitBorn ∧
+  (match b.born with
+    | none => b0.born = none
+    | some t => b0.born.isSome = true ∧ t ≤ T ∧
+        ∃ old, b0.log = b.log ++ old ∧ ∀ x ∈ old, ivl < t - x)
+
+theorem qrel_mono {ivl T T' : Int} {b b0 : Bk} (h : QRel ivl T b b0) (hT : T ≤ T') :
+    QRel ivl T' b b0 := by
+  obtain ⟨h1, h2, h3⟩ := h
+  refine ⟨h1, h2, ?_⟩
+  cases hb : b.born with
+  | none => simpa [hb] using h3
+  | some t =>
+    simp only [hb] at h3 ⊢
+    exact ⟨h3.1, Int.le_trans h3.2.1 hT, h3.2.2⟩
+
+theorem aliveAt_zero (t : Option Int) (now : Int) : aliveAt t 0 now = t.isSome := by
+  cases t <;> simp [aliveAt]
+
+theorem aboveSpec_append_old (num : Nat) (ivl now : Int) (l old : List Int)
+    (h : ∀ x ∈ old, ivl < now - x) :
+    aboveSpec num ivl (l ++ old) now = aboveSpec num ivl l now := by
+  have hf : old.filter (fun t => decide (now - t ≤ ivl)) = [] := by
+    apply List.filter_eq_nil_iff.mpr
+    intro x hx
+    have := h x hx
+    simp; omega
+  unfold aboveSpec
+  rw [List.filter_append, hf, List.append_nil]
+
+/-- What the event at `now` sees in the two buckets. -/
+theorem qrel_cur (ivl period now T : Int) (b b0 : Bk) (h : QRel ivl T b b0) (hT : T ≤ now)
+    (hq : b.resetsAt period now = true → ∀ x ∈ b.log, ivl < now - x) :
+    ∃ t old, b.curBorn period now = some t ∧ t ≤ now ∧ (b0.curBorn 0 now).isSome = true ∧
+      b0.curLog 0 now = b.curLog period now ++ old ∧ ∀ x ∈ old, ivl < t - x := by
+  obtain ⟨_, _, h3⟩ := h
+  unfold Bk.curBorn Bk.curLog
+  rw [aliveAt_zero]
+  cases hb : b.born with
+  | none =>
+    simp only [hb] at h3
+    exact ⟨now, [], by simp [aliveAt], Int.le_refl _, by simp [h3], by simp [h3, aliveAt],
+      fun x hx => by cases hx⟩
+  | some t =>
+    simp only [hb] at h3
+    obtain ⟨hs, htT, old, hlog, hold⟩ := h3
+    cases hal : aliveAt (some t) period now
+    · -- reset
+      have hr : b.resetsAt period now = true := by simp [Bk.resetsAt, hb, hal]
+      have hq' := hq hr
+      refine ⟨now, b.log ++ old, by simp, Int.le_refl _, by simp [hs], by simp [hs, hlog], ?_⟩
+      intro x hx
+      rcases List.mem_append.mp hx with hx | hx
+      · exact hq' x hx
+      · have := hold x hx; omega
+    · exact ⟨t, old, by simp, Int.le_trans htT hT, by simp [hs], by simp [hs, hlog], hold⟩
+
+theorem qrel_count (num : Nat) (ivl period duration now T : Int) (b b0 : Bk) (h : QRel ivl T b b0)
+    (hT : T ≤ now) (hq : b.resetsAt period now = true → ∀ x ∈ b.log, ivl < now - x) :
+    (b.count num ivl period duration now).2 = (b0.count num ivl 0 duration now).2 ∧
+    QRel ivl now (b.count num ivl period duration now).1 (b0.count num ivl 0 duration now).1 := by
+  obtain ⟨t, old, hcb, htn, hcb0, hcl0, hold⟩ := qrel_cur ivl period now T b b0 h hT hq
+  obtain ⟨hh, hhb, _⟩ := h
+  have hab : aboveSpec num ivl (b0.curLog 0 now) now = aboveSpec num ivl (b.curLog period now) now := by
+    rw [hcl0]
+    apply aboveSpec_append_old
+    intro x hx
+    have := hold x hx; omega
+  unfold Bk.count
+  rw [hab, ← hhb, ← hh]
+  refine ⟨rfl, ?_⟩
+  simp only []
+  cases aboveSpec num ivl (b.curLog period now) now
+  · simp only [Bool.false_eq_true, if_false, QRel, hcb]
+    exact ⟨trivial, trivial, hcb0, htn, old, by simp [hcl0], hold⟩
+  · simp only [if_true, QRel, hcb]
+    exact ⟨trivial, trivial, hcb0, htn, old, by simp [hcl0], hold⟩
+
+def QSimK (c : Cfg) (sp sp0 : ESpec) (T : Int) (k : Key) : Prop :=
+  QRel (famIvlK c k) T (sp k) (sp0 k)
+
+/-- The reset-free specification step, written over `c`. -/
+theorem especStep_zero (c : Cfg) (sp0 : ESpec) (e : Ev) :
+    especStep { c with period := 0 } sp0 e =
+      if c.refuseAny && e.qtype == qtypeANY then (sp0, .drop)
+      else if allowed c e.addr then (sp0, .allowlisted)
+      else if (sp0 (evKey c e)).inBackoff c.count c.duration e.now then (sp0, .drop)
+      else
+        (fun k => if k = evKey c e then
+            ((sp0 (evKey c e)).count (famCountK c (evKey c e)) (famIvlK c (evKey c e)) 0 c.duration e.now).1
+          else sp0 k,
+         if ((sp0 (evKey c e)).count (famCountK c (evKey c e)) (famIvlK c (evKey c e)) 0 c.duration e.now).2
+         then .drop else .pass) := rfl
+
+theorem qsim_step (c : Cfg) (sp sp0 : ESpec) (e : Ev) (T : Int)
+    (hs : ∀ k, QSimK c sp sp0 T k) (hT : T ≤ e.now) (hq : quietStep c sp e = true) :
+    (especStep c sp e).2 = (especStep { c with period := 0 } sp0 e).2 ∧
+    ∀ k, QSimK c (especStep c sp e).1 (especStep { c with period := 0 } sp0 e).1 e.now k := by
+  have hmono : ∀ k, QSimK c sp sp0 e.now k := fun k => qrel_mono (hs k) hT
+  have hk := hs (evKey c e)
+  have hbo : (sp0 (evKey c e)).inBackoff c.count c.duration e.now =
+      (sp (evKey c e)).inBackoff c.count c.duration e.now := by
+    unfold Bk.inBackoff; rw [hk.1, hk.2.1]
+  rw [especStep_zero]
+  unfold especStep
+  rw [hbo]
+  unfold quietStep at hq
+  by_cases h1 : (c.refuseAny && e.qtype == qtypeANY) = true
+  · simp only [h1, if_true]; exact ⟨trivial, hmono⟩
+  by_cases h2 : allowed c e.addr = true
+  · simp only [h1, h2, if_true, if_false, Bool.false_eq_true]; exact ⟨trivial, hmono⟩
+  by_cases h3 : (sp (evKey c e)).inBackoff c.count c.duration e.now = true
+  · simp only [h1, h2, h3, if_true, if_false, Bool.false_eq_true]; exact ⟨trivial, hmono⟩
+  simp only [h1, h2, h3, if_false, Bool.false_eq_true] at hq ⊢
+  have hq' : (sp (evKey c e)).resetsAt c.period e.now = true →
+      ∀ x ∈ (sp (evKey c e)).log, famIvlK c (evKey c e) < e.now - x := by
+    intro hr
+    simp only [hr, if_true, List.all_eq_true, decide_eq_true_eq] at hq
+    exact hq
+  have hc := qrel_count (famCountK c (evKey c e)) (famIvlK c (evKey c e)) c.period c.duration e.now T
+    (sp (evKey c e)) (sp0 (evKey c e)) hk hT hq'
+  refine ⟨?_, ?_⟩
+  · show (if _ then Verdict.drop else Verdict.pass) = (if _ then Verdict.drop else Verdict.pass)
+    rw [hc.1]
+  · intro k
+    by_cases hkk : k = evKey c e
+    · subst hkk
+      unfold QSimK
+      simp only [if_true]
+      exact hc.2
+    · have := hmono k
+      unfold QSimK at this ⊢
+      simp only [hkk, if_false]
+      exact this
+
+theorem quietStep_of_no_period (c : Cfg) (hp : c.period ≤ 0) (sp : ESpec) (e : Ev) :
+    quietStep c sp e = true := by
+  have hr : (sp (evKey c e)).resetsAt c.period e.now = false := by
+    unfold Bk.resetsAt
+    cases (sp (evKey c e)).born <;> simp [aliveAt, hp]
+  unfold quietStep
+  rw [hr]
+  simp
+
+/-! ## The allowlist enters only through `allowed` -/
+
+theorem esimK_allow (c : Cfg) (al : List Prefix) (s : St) (sp : ESpec) (k : Key) :
+    ESimK { c with allow := al } s sp k ↔ ESimK c s sp k := Iff.rfl
+
+/-- An allowlisted verdict leaves the limiter state untouched. -/
+theorem allowlisted_verdict_state (c : Cfg) (g : St) (now : Int) (a : Addr) (q : Nat)
+    (h : (isRateLimited c g now a q).2 = .allowlisted) : (isRateLimited c g now a q).1 = g := by
+  unfold isRateLimited at h ⊢
+  split
+  · rfl
+  split
+  · rfl
+  split
+  · rfl
+  · rename_i h1 h2 h3
+    simp only [h1, h2, h3, if_false, Bool.false_eq_true] at h
+    split at h <;> cases h
+
+end Agd.Ratelimit
+
+namespace Agd.Ratelimit
+
+/-! ## Profile limiter refinement -/
+
+theorem profCheck_sim (p : ProfLim) (t : Int) (a : Addr) (T : Int)
+    (hivl : 0 ≤ p.ctr.ivl) (hd : Desc p.ctr.hist) (hb : ∀ x ∈ p.ctr.hist, 0 < x ∧ x ≤ T)
+    (hpos : 0 < t) (hT : T ≤ t) :
+    p.check t a =
+      if !p.subnets.isEmpty && !(p.subnets.any (fun s => s.contains a)) then (p, .useGlobal)
+      else ({ p with ctr := { p.ctr with hist := t :: p.ctr.hist } },
+        if aboveSpec p.ctr.num p.ctr.ivl p.ctr.hist t then .drop else .pass) := by
+  have hab : above p.ctr.num p.ctr.ivl p.ctr.hist t = aboveSpec p.ctr.num p.ctr.ivl p.ctr.hist t := by
+    apply above_eq_spec _ _ _ _ hivl
+    · exact desc_cons hd (fun x hx => Int.le_trans (hb x hx).2 hT)
+    · exact fun x hx => (hb x hx).1
+    · exact hpos
+  unfold ProfLim.check
+  split
+  · rfl
+  · simp only [Counter.add, hab]
+
+theorem profRun_sim (rps : Nat) (evs : List (Int × Addr)) :
+    ∀ (p : ProfLim) (T : Int), p.ctr.num = rps → p.ctr.ivl = 1000000000 → Desc p.ctr.hist →
+      (∀ x ∈ p.ctr.hist, 0 < x ∧ x ≤ T) → TChain T evs →
+      profRun p evs = profSpecRun rps p.subnets p.ctr.hist evs := by
+  induction evs with
+  | nil => intro _ _ _ _ _ _ _; rfl
+  | cons ta r ih =>
+    intro p T hn hi hd hb hc
+    obtain ⟨t, a⟩ := ta
+    obtain ⟨hpos, hT, hrest⟩ := hc
+    have hc := profCheck_sim p t a T (by rw [hi]; decide) hd hb hpos hT
+    simp only [profRun, profSpecRun]
+    rw [hc]
+    by_cases hout : (!p.subnets.isEmpty && !(p.subnets.any (fun s => s.contains a))) = true
+    · simp only [hout, if_true]
+      rw [ih p t hn hi hd (fun x hx => ⟨(hb x hx).1, Int.le_trans (hb x hx).2 hT⟩) hrest]
+    · simp only [hout, if_false, Bool.false_eq_true]
+      rw [ih { p with ctr := { p.ctr with hist := t :: p.ctr.hist } } t hn hi (desc_cons hd (fun x hx => Int.le_trans (hb x hx).2 hT)) _ hrest, hn, hi]
+      intro x hx
+      cases hx with
+      | head => exact ⟨hpos, Int.le_refl _⟩
+      | tail _ hx' => exact ⟨(hb x hx').1, Int.le_trans (hb x hx').2 hT⟩
+
+/-! ## The bucket key is the leading bits -/
+
+theorem shiftRight_eq_iff_leading_bits (w bits x y : Nat) (hb : bits ≤ w) (hx : x < 2 ^ w)
+    (hy : y < 2 ^ w) :
+    x >>> (w - bits) = y >>> (w - bits) ↔
+      ∀ i, i < bits → x.testBit (w - 1 - i) = y.testBit (w - 1 - i) := by
+  constructor
+  · intro h i hi
+    have := congrArg (fun n => n.testBit (bits - 1 - i)) h
+    simp only [Nat.testBit_shiftRight] at this
+    have he : w - bits + (bits - 1 - i) = w - 1 - i := by omega
+    rwa [he] at this
+  · intro h
+    apply Nat.eq_of_testBit_eq
+    intro j
+    simp only [Nat.testBit_shiftRight]
+    by_cases hj : j < bits
+    · have := h (bits - 1 - j) (by omega)
+      have he : w - 1 - (bits - 1 - j) = w - bits + j := by omega
+      rwa [he] at this
+    · have hp : 2 ^ w ≤ 2 ^ (w - bits + j) := Nat.pow_le_pow_right (by decide) (by omega)
+      rw [Nat.testBit_lt_two_pow (Nat.lt_of_lt_of_le hx hp),
+        Nat.testBit_lt_two_pow (Nat.lt_of_lt_of_le hy hp)]
+
+end Agd.Ratelimit
